@@ -221,7 +221,7 @@ class Unit:
             return self.override[it.name]
         enabled = it.src_opts.get("rules", self.cfg.get("rules", ["R1", "R2", "R3", "R4", "R5", "R6", "R10", "R12", "R15", "R16", "R17"]))
         t = it.text
-        keep = set(self.cfg.get("keep_derives", list(R.KEEP_DERIVES)))
+        keep = set(it.opts.get("keep_derives", self.cfg.get("keep_derives", list(R.KEEP_DERIVES))))
         if "R1" in enabled:
             t, n = R.r1_strip_attrs_comments(t, keep)
             self._count("R1", n)
@@ -538,6 +538,14 @@ class Unit:
                     # verifier-only attributes (no run-time meaning), e.g. reject_recursive_types
                     for a in it.opts.get("attrs", []):
                         t = a + "\n" + t.lstrip()
+                    # R14: ghost fields appended to an extracted struct (erased at run time)
+                    gf = it.opts.get("ghost_fields", [])
+                    if gf:
+                        mt = L.mask(t)
+                        bo = mt.index("{")
+                        bc = L.match_close(mt, bo)
+                        t = t[:bc].rstrip().rstrip(",") + ",\n    " + ",\n    ".join(gf) + ",\n" + t[bc:]
+                        self._count("R14", len(gf))
                     lo, hi = g.emit(t)
                     g.region(lo, hi, kind="decl", item=it.name, file=it.file, line=it.line)
             except (LostAnchor, L.LexError) as e:
